@@ -220,6 +220,18 @@ def check(model, rep, tier):
       if isinstance(e, ast.UnaryOp) and isinstance(e.op, ast.Not):
         v = none_case(e.operand)
         return None if v is None else (not v)
+      if isinstance(e, ast.Name):
+        x = tpl.expand(pw, e, e, depth=1)
+        if not isinstance(x, ast.Name):
+          return none_case(x)
+      if isinstance(e, ast.Compare) and len(e.ops) == 1 and isinstance(
+          e.ops[0], (ast.Eq, ast.NotEq, ast.Is, ast.IsNot)):
+        l = core.norm(tpl.expand(pw, e.left, e, depth=1))
+        r = core.norm(tpl.expand(pw, e.comparators[0], e, depth=1))
+        names = ('%s.__class__.__name__' % nv, '%s.__class__.__name__' % ov,
+                 'type(%s)' % nv, 'type(%s)' % ov, '%s.__class__' % nv, '%s.__class__' % ov)
+        if l in names and r in names:
+          return isinstance(e.ops[0], (ast.Eq, ast.Is))
       t = core.norm(e)
       if t.startswith('isinstance(%s, ' % nv) or t.startswith('isinstance(%s, ' % ov):
         return 'NoneType' in t
